@@ -267,4 +267,4 @@ def run(case, rec):
 
 
 def parts(ctx):
-    return [Part('client', run, strategy=cases(), n=ctx.n(250, 6000), budget_s=ctx.n(150, 3000))]
+    return [Part('client', run, strategy=cases(), n=ctx.n(500, 6000), budget_s=ctx.n(150, 3000))]
